@@ -449,8 +449,9 @@ def _true_to_256(desc: str) -> str | None:
     if not _is_rrggbb(desc):
         return None
 
-    c256 = _parse_color_256("#" + "".join(format(int(x, 16) // 16, "x") for x in (desc[1:3], desc[3:5], desc[5:7])))
-    return _color_desc_256(c256)
+    # find the closest cube value for each full 8-bit component
+    r, g, b = (_CUBE_256_LOOKUP[int(x, 16)] for x in (desc[1:3], desc[3:5], desc[5:7]))
+    return _color_desc_256(_CUBE_START + (r * _CUBE_SIZE_256 + g) * _CUBE_SIZE_256 + b)
 
 
 def _parse_color_88(desc: str) -> int | None:
@@ -476,7 +477,9 @@ def _parse_color_88(desc: str) -> int | None:
     if len(desc) == 7:
         if not _is_rrggbb(desc):
             return None
-        desc = desc[0:2] + desc[3] + desc[5]
+        # find the closest cube value for each full 8-bit component
+        r, g, b = (_CUBE_88_LOOKUP[int(x, 16)] for x in (desc[1:3], desc[3:5], desc[5:7]))
+        return _CUBE_START + (r * _CUBE_SIZE_88 + g) * _CUBE_SIZE_88 + b
     if len(desc) > 4:
         # keep the length within reason before parsing
         return None
